@@ -25,6 +25,17 @@ def encodeHeader (clientId : Bytes) (correlationId requestKey apiVersion : Int) 
   | .error e => .error e
   | .ok h => .ok (h ++ clientId)
 
+/-- the `for topic, topic_payloads in grouped_payloads.items()` loop every broker-aware request shares:
+    `write_short_ascii(topic)`, `struct.pack(">i", len(topic_payloads))`, then one entry per partition -/
+def topicEntry {α : Type} (fmtN : List Char) (partEntry : Int × α → R Bytes) (tp : Option Bytes × List (Int × α)) : R Bytes :=
+  match writeShortAscii tp.1 with
+  | .error e => .error e
+  | .ok t => match pack fmtN [tp.2.length] with
+    | .error e => .error e
+    | .ok n => match concatMapM partEntry tp.2 with
+      | .error e => .error e
+      | .ok ps => .ok (t ++ n ++ ps)
+
 /-! ## payload structs (`afkak/common.py`); a topic / group / member id is a Python `str` given by
 its UTF-8 bytes, or `None` -/
 
@@ -69,6 +80,14 @@ def produceClamp (apiVersion : Int) : Int × Int :=
 def fetchClamp (apiVersion : Int) : Int :=
   if apiVersion ≥ fetchClampAt then fetchClampTo else apiVersion
 
+/-- one partition of a produce request: the encoded message set behind `struct.pack(">ii", partition, len(msg_set))` -/
+def producePartEntry (ext : Ext) (magic : Int) (pp : Int × ProduceReq) : R Bytes :=
+  match encodeMessageSet ext pp.2.messages none magic with
+  | .error e => .error e
+  | .ok ms => match pack fmt_encode_produce_request_2 [pp.1, ms.length] with
+    | .error e => .error e
+    | .ok h => .ok (h ++ ms)
+
 /-- `KafkaCodec.encode_produce_request(client_id, correlation_id, payloads, acks, timeout, api_version)` -/
 def encodeProduceRequest (ext : Ext) (clientId : Bytes) (corr : Int) (payloads : List ProduceReq)
     (acks timeout apiVersion : Int) : R Bytes :=
@@ -79,22 +98,13 @@ def encodeProduceRequest (ext : Ext) (clientId : Bytes) (corr : Int) (payloads :
   | .ok hdr => match pack fmt_encode_produce_request_0 [acks, timeout, grouped.length] with
     | .error e => .error e
     | .ok h2 =>
-      match concatMapM (fun (tp : Option Bytes × List (Int × ProduceReq)) =>
-          match writeShortAscii tp.1 with
-          | .error e => .error e
-          | .ok t => match pack fmt_encode_produce_request_1 [tp.2.length] with
-            | .error e => .error e
-            | .ok n =>
-              match concatMapM (fun (pp : Int × ProduceReq) =>
-                  match encodeMessageSet ext pp.2.messages none magic with
-                  | .error e => .error e
-                  | .ok ms => match pack fmt_encode_produce_request_2 [pp.1, ms.length] with
-                    | .error e => .error e
-                    | .ok h => .ok (h ++ ms)) tp.2 with
-              | .error e => .error e
-              | .ok ps => .ok (t ++ n ++ ps)) grouped with
+      match concatMapM (topicEntry fmt_encode_produce_request_1 (producePartEntry ext magic)) grouped with
       | .error e => .error e
       | .ok body => .ok (hdr ++ h2 ++ body)
+
+/-- one partition of a fetch request -/
+def fetchPartEntry (pp : Int × FetchReq) : R Bytes :=
+  pack fmt_encode_fetch_request_2 [pp.1, pp.2.offset, pp.2.maxBytes]
 
 /-- `KafkaCodec.encode_fetch_request(client_id, correlation_id, payloads, max_wait_time, min_bytes, api_version)` -/
 def encodeFetchRequest (clientId : Bytes) (corr : Int) (payloads : List FetchReq)
@@ -106,18 +116,13 @@ def encodeFetchRequest (clientId : Bytes) (corr : Int) (payloads : List FetchReq
     match pack fmt_encode_fetch_request_0 [argc_encode_fetch_request_0_0, maxWaitTime, minBytes, grouped.length] with
     | .error e => .error e
     | .ok h2 =>
-      match concatMapM (fun (tp : Option Bytes × List (Int × FetchReq)) =>
-          match writeShortAscii tp.1 with
-          | .error e => .error e
-          | .ok t => match pack fmt_encode_fetch_request_1 [tp.2.length] with
-            | .error e => .error e
-            | .ok n =>
-              match concatMapM (fun (pp : Int × FetchReq) =>
-                  pack fmt_encode_fetch_request_2 [pp.1, pp.2.offset, pp.2.maxBytes]) tp.2 with
-              | .error e => .error e
-              | .ok ps => .ok (t ++ n ++ ps)) grouped with
+      match concatMapM (topicEntry fmt_encode_fetch_request_1 fetchPartEntry) grouped with
       | .error e => .error e
       | .ok body => .ok (hdr ++ h2 ++ body)
+
+/-- one partition of a list-offsets request -/
+def offsetPartEntry (pp : Int × OffsetReq) : R Bytes :=
+  pack fmt_encode_offset_request_2 [pp.1, pp.2.time, pp.2.maxOffsets]
 
 /-- `KafkaCodec.encode_offset_request(client_id, correlation_id, payloads)` (ListOffsets v0) -/
 def encodeOffsetRequest (clientId : Bytes) (corr : Int) (payloads : List OffsetReq) : R Bytes :=
@@ -128,16 +133,7 @@ def encodeOffsetRequest (clientId : Bytes) (corr : Int) (payloads : List OffsetR
     match pack fmt_encode_offset_request_0 [argc_encode_offset_request_0_0, grouped.length] with
     | .error e => .error e
     | .ok h2 =>
-      match concatMapM (fun (tp : Option Bytes × List (Int × OffsetReq)) =>
-          match writeShortAscii tp.1 with
-          | .error e => .error e
-          | .ok t => match pack fmt_encode_offset_request_1 [tp.2.length] with
-            | .error e => .error e
-            | .ok n =>
-              match concatMapM (fun (pp : Int × OffsetReq) =>
-                  pack fmt_encode_offset_request_2 [pp.1, pp.2.time, pp.2.maxOffsets]) tp.2 with
-              | .error e => .error e
-              | .ok ps => .ok (t ++ n ++ ps)) grouped with
+      match concatMapM (topicEntry fmt_encode_offset_request_1 offsetPartEntry) grouped with
       | .error e => .error e
       | .ok body => .ok (hdr ++ h2 ++ body)
 
@@ -159,6 +155,14 @@ def encodeConsumerMetadataRequest (clientId : Bytes) (corr : Int) (group : Optio
     | .error e => .error e
     | .ok g => .ok (hdr ++ g)
 
+/-- one partition of an offset-commit request -/
+def offsetCommitPartEntry (pp : Int × OffsetCommitReq) : R Bytes :=
+  match pack fmt_encode_offset_commit_request_3 [pp.1, pp.2.offset, pp.2.timestamp] with
+  | .error e => .error e
+  | .ok h => match writeShortBytes pp.2.metadata with
+    | .error e => .error e
+    | .ok md => .ok (h ++ md)
+
 /-- `KafkaCodec.encode_offset_commit_request(client_id, correlation_id, group, group_generation_id,
     consumer_id, payloads)` (v1) -/
 def encodeOffsetCommitRequest (clientId : Bytes) (corr : Int) (group : Option Bytes) (generationId : Int)
@@ -176,22 +180,13 @@ def encodeOffsetCommitRequest (clientId : Bytes) (corr : Int) (group : Option By
         | .ok cid => match pack fmt_encode_offset_commit_request_1 [grouped.length] with
           | .error e => .error e
           | .ok n =>
-            match concatMapM (fun (tp : Option Bytes × List (Int × OffsetCommitReq)) =>
-                match writeShortAscii tp.1 with
-                | .error e => .error e
-                | .ok t => match pack fmt_encode_offset_commit_request_2 [tp.2.length] with
-                  | .error e => .error e
-                  | .ok np =>
-                    match concatMapM (fun (pp : Int × OffsetCommitReq) =>
-                        match pack fmt_encode_offset_commit_request_3 [pp.1, pp.2.offset, pp.2.timestamp] with
-                        | .error e => .error e
-                        | .ok h => match writeShortBytes pp.2.metadata with
-                          | .error e => .error e
-                          | .ok md => .ok (h ++ md)) tp.2 with
-                    | .error e => .error e
-                    | .ok ps => .ok (t ++ np ++ ps)) grouped with
+            match concatMapM (topicEntry fmt_encode_offset_commit_request_2 offsetCommitPartEntry) grouped with
             | .error e => .error e
             | .ok body => .ok (hdr ++ g ++ gen ++ cid ++ n ++ body)
+
+/-- one partition of an offset-fetch request -/
+def offsetFetchPartEntry (pp : Int × OffsetFetchReq) : R Bytes :=
+  pack fmt_encode_offset_fetch_request_2 [pp.1]
 
 /-- `KafkaCodec.encode_offset_fetch_request(client_id, correlation_id, group, payloads)` (v1) -/
 def encodeOffsetFetchRequest (clientId : Bytes) (corr : Int) (group : Option Bytes)
@@ -204,16 +199,7 @@ def encodeOffsetFetchRequest (clientId : Bytes) (corr : Int) (group : Option Byt
     | .ok g => match pack fmt_encode_offset_fetch_request_0 [grouped.length] with
       | .error e => .error e
       | .ok n =>
-        match concatMapM (fun (tp : Option Bytes × List (Int × OffsetFetchReq)) =>
-            match writeShortAscii tp.1 with
-            | .error e => .error e
-            | .ok t => match pack fmt_encode_offset_fetch_request_1 [tp.2.length] with
-              | .error e => .error e
-              | .ok np =>
-                match concatMapM (fun (pp : Int × OffsetFetchReq) =>
-                    pack fmt_encode_offset_fetch_request_2 [pp.1]) tp.2 with
-                | .error e => .error e
-                | .ok ps => .ok (t ++ np ++ ps)) grouped with
+        match concatMapM (topicEntry fmt_encode_offset_fetch_request_1 offsetFetchPartEntry) grouped with
         | .error e => .error e
         | .ok body => .ok (hdr ++ g ++ n ++ body)
 
